@@ -13,6 +13,7 @@ type gstate struct {
 	touched   int  // live builder that has looked this target up (-1 none); others must not touch it
 	stubEpoch bool // a stub is configured in the current epoch of the owner's mocker
 	nClauses  int
+	how       int // lookup path used for this target in this history (-1 not fixed yet)
 }
 
 type gmodel struct {
@@ -24,7 +25,7 @@ func newGModel() *gmodel { return &gmodel{gs: map[int]*gstate{}} }
 func (m *gmodel) g(t int) *gstate {
 	g := m.gs[t]
 	if g == nil {
-		g = &gstate{owner: -1, touched: -1}
+		g = &gstate{owner: -1, touched: -1, how: -1}
 		m.gs[t] = g
 	}
 	return g
@@ -48,9 +49,23 @@ func (m *gmodel) step(op world.Op) bool {
 	}
 	t := Targets[op.T]
 	switch op.K {
+	case "apply", "ret", "when", "cancel":
+		// one lookup path per target and history: two paths create two unrelated mockers
+		g := m.g(op.T)
+		if op.N < 0 || op.N >= t.NumHow || (g.how >= 0 && g.how != op.N) {
+			return false
+		}
+		if op.K == "when" && t.SkipRecv != nil && !t.SkipRecv(op.N) {
+			return false // clause arguments would have to include a receiver value
+		}
+	}
+	switch op.K {
 	case "apply":
 		if !m.usable(op.T, op.B) {
 			return false
+		}
+		if op.F == 1 && t.Generic {
+			return false // S12: the origin placeholder of a generic method lacks the hidden dictionary argument
 		}
 		g := m.g(op.T)
 		g.kind, g.owner, g.touched, g.stubEpoch, g.nClauses = kCb, op.B, op.B, false, 0
@@ -107,7 +122,32 @@ func (m *gmodel) step(op world.Op) bool {
 	default:
 		return false
 	}
+	switch op.K {
+	case "apply", "ret", "when", "cancel":
+		m.g(op.T).how = op.N
+	}
 	return true
+}
+
+// ResolveNames lets hand-written plans (known-finding witnesses) name their targets: an
+// operation with a non-empty S field on a target operation gets T from the corpus by name.
+func ResolveNames(p *world.Plan) {
+	for ti := range p.Tasks {
+		for oi := range p.Tasks[ti].Ops {
+			op := &p.Tasks[ti].Ops[oi]
+			if op.S == "" {
+				continue
+			}
+			switch op.K {
+			case "apply", "ret", "when", "cancel", "call", "bad":
+				for _, t := range Targets {
+					if t.Name == op.S {
+						op.T = t.Idx
+					}
+				}
+			}
+		}
+	}
 }
 
 // WellFormed reports whether the history obeys the generator's grammar (used to reject
@@ -116,6 +156,7 @@ func WellFormed(p *world.Plan) bool {
 	if len(p.Tasks) != 1 {
 		return false
 	}
+	ResolveNames(p)
 	m := newGModel()
 	for _, op := range p.Tasks[0].Ops {
 		if !m.step(op) {
@@ -148,6 +189,11 @@ func (W) Gen(prop string, seed uint64, tier string) *world.Plan {
 			if e == c {
 				dup = true
 			}
+			for _, mt := range Targets[e].Mates {
+				if mt == c {
+					dup = true // two instantiations of one shape body are one patch target
+				}
+			}
 		}
 		if !dup {
 			tg = append(tg, c)
@@ -171,6 +217,10 @@ func (W) Gen(prop string, seed uint64, tier string) *world.Plan {
 	if wts == nil {
 		wts = []int{14, 8, 6, 6, 4, 30, 8, 4, 2, 2, 0, 0}
 	}
+	howOf := map[int]int{}
+	for _, t := range tg {
+		howOf[t] = r.Intn(Targets[t].NumHow)
+	}
 	pickB := func(t int) int {
 		g := m.g(t)
 		if g.owner >= 0 {
@@ -192,13 +242,13 @@ func (W) Gen(prop string, seed uint64, tier string) *world.Plan {
 			if r.Chance(250) && prop != "C19" {
 				origin = 1
 			}
-			op = world.Op{K: "apply", B: pickB(t), T: t, F: origin, N: r.Intn(Targets[t].NumHow), V: r.U64(), W: r.U64()}
+			op = world.Op{K: "apply", B: pickB(t), T: t, F: origin, N: howOf[t], V: r.U64(), W: r.U64()}
 		case 1:
-			op = world.Op{K: "ret", B: pickB(t), T: t, N: r.Intn(Targets[t].NumHow), V: r.U64(), W: r.U64()}
+			op = world.Op{K: "ret", B: pickB(t), T: t, N: howOf[t], V: r.U64(), W: r.U64()}
 		case 2:
-			op = world.Op{K: "when", B: pickB(t), T: t, N: r.Intn(Targets[t].NumHow), V: r.U64(), W: r.U64()}
+			op = world.Op{K: "when", B: pickB(t), T: t, N: howOf[t], V: r.U64(), W: r.U64()}
 		case 3:
-			op = world.Op{K: "cancel", B: pickB(t), T: t, N: r.Intn(Targets[t].NumHow), W: r.U64()}
+			op = world.Op{K: "cancel", B: pickB(t), T: t, N: howOf[t], W: r.U64()}
 		case 4:
 			op = world.Op{K: "reset", B: r.Intn(nB)}
 			if r.Chance(200) && m.step(op) {
@@ -237,6 +287,9 @@ func (W) Gen(prop string, seed uint64, tier string) *world.Plan {
 func candidates(prop string) []int {
 	var out []int
 	for _, t := range Targets {
+		if t.Known != "" {
+			continue // only the known finding's witness plan uses these
+		}
 		switch prop {
 		case "C06":
 			if t.Kind != "func" {
